@@ -1,4 +1,8 @@
 import Acra.Drv.SpecFTI
+import Acra.Drv.SpecSearch
 namespace Acra.Drv
-def specFuncs : List Func := specFuncsFTI
+def specFuncs : List Func := List.flatten [
+  specFuncsFTI,
+  specFuncsSearch
+]
 end Acra.Drv
